@@ -595,6 +595,18 @@ func genLexSpec(r *rng, o lexGenOpts) *lspec {
 				} else {
 					rule.acts = append(rule.acts, a)
 				}
+				if r.chance(1, 3) {
+					// a second mode action on the same rule, e.g. "@pop_mode @push_mode(M)" (replace the mode)
+					b := lact{kind: "push", arg: pick(r, modeNames)}
+					if a.kind == "push" && inMode {
+						b = lact{kind: "pop"}
+					}
+					if r.chance(1, 2) {
+						rule.acts = append([]lact{b}, rule.acts...)
+					} else {
+						rule.acts = append(rule.acts, b)
+					}
+				}
 			}
 			items = append(items, litem{rule: rule})
 		}
